@@ -20,8 +20,10 @@ class InjectedFault(Exception):
         self.site = site
 
 
-class RunTooBig(Exception):
-    """Evaluation tree larger than the per-request cap: the run is discarded."""
+class RunTooBig(BaseException):
+    """Evaluation tree larger than the per-request cap: the run is discarded.
+    (BaseException: no `except Exception` of the harness or of the code under
+    test may mistake it for an outcome.)"""
 
 
 MAX_ENTERS = 4000
